@@ -80,7 +80,7 @@ theorem validTree_kids (b : Bool) (h : Nat) (v : Value) (ks : List HTree)
   simp only [validTree, Bool.and_eq_true] at hv
   exact hv.2
 
-theorem validList_cons (b : Bool) (k : HTree) (ks : List HTree) (h : validList b (k :: ks) = true) :
+theorem fc_validList_cons (b : Bool) (k : HTree) (ks : List HTree) (h : validList b (k :: ks) = true) :
     validTree b k = true ∧ validList b ks = true := by
   simpa [validList] using h
 
